@@ -210,6 +210,7 @@ package plugin
 //@   ensures !result1 && !result ==> afterDeploy(r)
 //
 //@ func (*runningStep).startStage
+//@   site call ReadSchema#1 assert [a-step-whose-context-was-done-when-it-got-its-run-input-is-not-started] !ctxdone(r.ctx)
 //@   site call transitionStageWithOutput#1 assert [enabling-output-matches-its-declared-schema] mapWithOnly1(enabledOutput, "enabled") && enabledOutput.(map[any]any)[any("enabled")] == any(true)
 //@   opt goroutine run
 //@   requires wfstep(r) && nolocks() && container != nil && r.currentStage == StageIDEnabling && afterEnabled(r)
